@@ -100,6 +100,19 @@ def run(ctx):
                 want = np.sort(np.array([sum(t) for t in itertools.product(*axes)]))
                 if _nn(np.abs(ev - want).max()) > 1e-10:
                     ctx.fail('poisson/spectrum', 'max deviation from the tensor-product spectrum %.3g' % np.abs(ev - want).max(), case)
+            else:
+                # FE: stencil -1 on all 3^N - 1 neighbours, centre 3^N - 1, i.e. A = 3^N I - (T_1 x ... x T_N) with
+                # T_k = tridiag(1, 1, 1): spectrum 3^N - prod_k (1 + 2 cos(j pi / (n_k + 1))); interior rows sum to zero
+                N_ = len(grid)
+                ev = np.sort(np.linalg.eigvalsh(A))
+                axes = [1 + 2 * np.cos(np.arange(1, n + 1) * np.pi / (n + 1)) for n in grid]
+                want = np.sort(np.array([3.0 ** N_ - np.prod(t) for t in itertools.product(*axes)]))
+                if _nn(np.abs(ev - want).max()) > 1e-9:
+                    ctx.fail('poisson/FE/spectrum', 'max deviation from the tensor-product spectrum %.3g' % np.abs(ev - want).max(), case)
+                idx = np.arange(int(np.prod(grid))).reshape(grid)
+                inner = idx[tuple(slice(1, -1) for _ in grid)].ravel() if all(g >= 3 for g in grid) else []
+                if len(inner) and _nn(np.abs(A[inner].sum(1)).max()) > 1e-12:
+                    ctx.fail('poisson/FE/interior-row-sum', 'interior rows do not sum to zero', case)
     # ---------------- diffusion stencils: bit-exact against the Gallina stencils, and the consistency the theorems state
     dcases, dmeta = [], []
     pairs = [(eps, th) for eps in (1.0, 0.1, 1e-3, 7.5) for th in (0.0, 0.3, np.pi / 4, 1.9, -0.7)]
